@@ -21,7 +21,16 @@ func Parse(tmpl string) (Compiler, error) {
 	if !strings.HasPrefix(tmpl, "/") {
 		return template{}, InvalidTemplateError{tmpl: tmpl, msg: "no leading /"}
 	}
+	if strings.Contains(tmpl, eof) {
+		// a NUL would be taken for the end-of-input token, hiding the rest of the template from the parser
+		return template{}, InvalidTemplateError{tmpl: tmpl, msg: "invalid character in template"}
+	}
+
 	tokens, verb := tokenize(tmpl[1:])
+	if err := expectPChars(verb); err != nil {
+		// the verb is cut off before parsing and would otherwise never be looked at
+		return template{}, InvalidTemplateError{tmpl: tmpl, msg: "invalid verb: " + err.Error()}
+	}
 
 	// The parser accepts a "/" token in place of any other punctuation, so an empty path segment
 	// would silently become a wildcard ("/a//" would route like "/a/*/*").
